@@ -18,6 +18,7 @@ import (
 	"github.com/jdillenkofer/pithos/internal/lifecycle"
 	"github.com/jdillenkofer/pithos/internal/storage/database"
 	"github.com/jdillenkofer/pithos/internal/storage/metadatapart/partstore"
+	"github.com/jdillenkofer/pithos/internal/verifhook"
 )
 
 type filesystemPartStore struct {
@@ -99,6 +100,10 @@ func (bs *filesystemPartStore) PutPart(ctx context.Context, tx database.Tx, part
 			return err
 		}
 
+		if verifhook.Enabled {
+			_ = verifhook.Point(ctx, "fs.put.tmp_written", tempName)
+		}
+
 		backupName := filename + ".txbackup." + ulid.Make().String()
 		backupCreated := false
 		published := false
@@ -108,6 +113,9 @@ func (bs *filesystemPartStore) PutPart(ctx context.Context, tx database.Tx, part
 			} else if !errors.Is(err, fs.ErrNotExist) {
 				return err
 			}
+			if verifhook.Enabled {
+				_ = verifhook.Point(ctx, "fs.put.precommit.between_renames", filename, backupCreated)
+			}
 			if err := os.Rename(tempName, filename); err != nil {
 				if backupCreated {
 					_ = os.Rename(backupName, filename)
@@ -116,6 +124,9 @@ func (bs *filesystemPartStore) PutPart(ctx context.Context, tx database.Tx, part
 				return err
 			}
 			published = true
+			if verifhook.Enabled {
+				_ = verifhook.Point(ctx, "fs.put.precommit.published", filename)
+			}
 			return nil
 		})
 		tx.OnAfterCommit(func(context.Context) error {
@@ -206,6 +217,9 @@ func (bs *filesystemPartStore) DeletePart(ctx context.Context, tx database.Tx, p
 		tx.OnPreCommit(func(context.Context) error {
 			if err := os.Rename(filename, backupName); err == nil {
 				backupCreated = true
+				if verifhook.Enabled {
+					_ = verifhook.Point(ctx, "fs.delete.precommit.renamed", filename)
+				}
 				return nil
 			} else if errors.Is(err, fs.ErrNotExist) {
 				return nil
